@@ -185,10 +185,10 @@ def c15(A):
             if t_ans is not None and abs(t_ans - dl) < 1e-9:
                 continue    # answered exactly at k: either outcome
             # unanswered for k seconds: the connection must be aborted at that instant
-            if t_stop is not None and t_stop < dl + late - 1e-9:
-                continue    # the connection ended (for another reason) before the deadline
-            o.dec("unanswered")
             ab = [x for x in c.tcalls if x["what"] == "abort" and abs(x["t"] - (dl + late)) < 1e-6]
+            if not ab and t_stop is not None and t_stop <= dl + late + 1e-9:
+                continue    # the connection ended (for another reason) no later than the deadline
+            o.dec("unanswered")
             if not ab:
                 o.bad("no-abort-on-ping-timeout", "PINGREQ at t=%.3f unanswered for %d s, no abort at t=%.3f"
                       % (e["t"], k, dl), e)
